@@ -32,9 +32,49 @@ type multiset struct {
 func (m multiset) add(t Term) multiset {
 	n := multiset{konst: m.konst + t.K, vals: append([]ssa.Value{}, m.vals...)}
 	if t.V != nil {
-		n.vals = append(n.vals, stripWiden(t.V))
+		n.vals = append(n.vals, stripSmallCasts(stripWiden(t.V)))
 	}
 	return n
+}
+
+// stripSmallCasts removes integer conversions (incl. math.CastTo) of a value that is a small non-negative constant on every
+// path (a φ of byte counts such as 0/1/2/4): no conversion between Go integer types changes such a value.
+func stripSmallCasts(v ssa.Value) ssa.Value {
+	for i := 0; i < 4; i++ {
+		var x ssa.Value
+		switch c := v.(type) {
+		case *ssa.Convert:
+			x = c.X
+		case *ssa.Call:
+			if CalleeName(c) == "pkg/math.CastTo" && len(c.Call.Args) == 1 {
+				x = c.Call.Args[0]
+			}
+		}
+		if x == nil || !smallNonNeg(x, 0) {
+			return v
+		}
+		v = x
+	}
+	return v
+}
+
+func smallNonNeg(v ssa.Value, d int) bool {
+	if d > 3 {
+		return false
+	}
+	switch x := v.(type) {
+	case *ssa.Const:
+		k, ok := ConstInt(x)
+		return ok && k >= 0 && k <= 127
+	case *ssa.Phi:
+		for _, e := range x.Edges {
+			if !smallNonNeg(e, d+1) {
+				return false
+			}
+		}
+		return len(x.Edges) > 0
+	}
+	return false
 }
 
 // minus returns m − o if o ⊆ m.
